@@ -8,7 +8,7 @@ histories with copies, or this module's sweep of the remaining entry points
 with create/copy/use/delete orders).  The history first runs fault-free in a
 forked child, which also counts the allocations n made by pycryptodome's C
 code; then it is re-run with allocation i failing, for a seeded sample of
-indices (all of them in the thorough tier), each in its own forked child.
+indices (24 in the quick tier, 128 in the thorough tier; all of them when the history makes fewer allocations), each in its own forked child.
 
 Oracle: no AddressSanitizer report and no death by signal.  A wrong value
 returned without an exception under an injected allocation failure is recorded
@@ -50,7 +50,7 @@ class Machine(object):
         from . import c09_segmentation, c10_lifecycle
         self.tier = tier
         self.drivers = {"C09": c09_segmentation.Machine(), "C10": c10_lifecycle.Machine()}
-        self.sample = 24 if tier == "quick" else None
+        self.sample = 24 if tier == "quick" else 128
         self.logbase = os.environ.get("VSIM_ASAN_LOG")
         if self.logbase:
             for f in glob.glob(self.logbase + ".*"):
@@ -65,7 +65,7 @@ class Machine(object):
         allocator.load()
 
     def budget(self, tier):
-        return 600 if tier == "quick" else 4000
+        return 600 if tier == "quick" else 3000
 
     # ------------------------------------------------------------------ gen
     def gen(self, rng, tier, idx):
@@ -479,7 +479,7 @@ class Machine(object):
             "rule": ("one evaluation = one history (C09 segmentation/carrier/aliasing history, C10 life-cycle history with copies, or a sweep of "
                      "2-9 calls over hashes, KDFs, PKCS#1 decoding, strxor, EC points on nine curves, signatures, modexp, with copy/delete/"
                      "gc.collect in between) executed on the AddressSanitizer build in a forked child, fault-free and then once per injected "
-                     "allocation failure (seeded sample of 24 allocation indices in the quick tier, every index in the thorough tier); "
+                     "allocation failure (seeded sample of 24 allocation indices per history in the quick tier, 128 in the thorough tier, every index when there are fewer); "
                      "non-trivial = at least one operation; distinct = SHA-256 of the canonical case"),
             "state_measure": "distinct (driver, phase) tuples; native entry points reached are not measured in this variant (no call proxy under ASan)",
             "components": {"real": ["all C extensions compiled with -fsanitize=address", "all of lib/Crypto (Python)", "ctypes"],
